@@ -619,3 +619,321 @@ func c14ShapeStage(r *rep.Report, deadline time.Time) bool {
 	}
 	return true
 }
+
+// ---------------------------------------------------------------------------
+// stage L: large end-stream content with extreme compression ratios
+//
+// The property says the trace shows the end-of-stream content, decompressed
+// exactly when the compressed flag is set - whatever its size and however well
+// it compresses: byte for byte what the peer compressed. A *case* is
+//
+//	(side in {client response, server response}, protocol (Connect 0x02 / gRPC-Web
+//	 0x80), negotiated encoding (absent, identity, every supported one),
+//	 compressed bit, content shape (all zero bytes | one repeated letter | a short
+//	 repeated pattern | such a run inside the JSON / the trailer block an
+//	 end-stream message really carries), size of the run: 2^k-1, 2^k, 2^k+1 up to
+//	 1 MiB, leading message or none, size of the Read / Write calls)
+//
+// run through c14Run like every single-body case and judged by c14Judge
+// (reference model, transparency against the untraced run), plus: the events of
+// a second chunking equal those of the first. The reference content is checked
+// against the generated text before use, so the oracle is the text itself.
+
+type c14LargeCase struct {
+	Stage string `json:"stage"` // "large"
+	Part  string `json:"part"`
+	Side  string `json:"side"`
+	Hdr   c14Hdr `json:"hdr"`
+	Flags byte   `json:"flags"` // of the end-stream envelope
+	Shape string `json:"shape"`
+	Size  int    `json:"size"`
+	Lead  bool   `json:"lead"`
+	Chunk string `json:"chunk"` // "64": calls of 64 bytes; "ragged": calls of 1, 7, 64, 13, 2, 31 bytes in turn
+}
+
+func (c *c14LargeCase) String() string {
+	b, _ := json.Marshal(c)
+	return string(b)
+}
+
+var c14LargeShapes = []string{"zeros", "letter", "pattern3", "wrapped"}
+
+// c14LargeContent generates the end-stream content of a case.
+func c14LargeContent(proto, shape string, n int) []byte {
+	run := func(pat string) []byte {
+		out := make([]byte, n)
+		for i := range out {
+			out[i] = pat[i%len(pat)]
+		}
+		return out
+	}
+	switch shape {
+	case "zeros":
+		return run("\x00")
+	case "letter":
+		return run("a")
+	case "pattern3":
+		return run("abc")
+	case "pattern255":
+		pat := make([]byte, 255)
+		for i := range pat {
+			pat[i] = byte(i + 1)
+		}
+		return run(string(pat))
+	case "wrapped":
+		if proto == "grpcweb" {
+			return []byte("grpc-status: 13\r\ngrpc-message: " + string(run("a")) + "\r\nx-c14: v\r\n")
+		}
+		return []byte(`{"error":{"code":"internal","message":"` + string(run("a")) + `"},"metadata":{"x-c14":["v"]}}`)
+	}
+	panic("c14 harness: unknown content shape " + shape)
+}
+
+func c14LargePieces(n int, chunk string) []int {
+	if chunk != "ragged" {
+		return c14Chunks(n)
+	}
+	sizes := [...]int{1, 7, 64, 13, 2, 31}
+	var out []int
+	for i := 0; n > 0; i++ {
+		m := sizes[i%len(sizes)]
+		if m > n {
+			m = n
+		}
+		out = append(out, m)
+		n -= m
+	}
+	return out
+}
+
+// c14LargeSizes: 2^k-1, 2^k, 2^k+1 up to 1 MiB; the quick tier keeps only 2^k between 64 KiB and 1 MiB.
+func c14LargeSizes(thorough bool) []int {
+	var out []int
+	for k := 0; k <= 20; k++ {
+		for _, n := range []int{1<<k - 1, 1 << k, 1<<k + 1} {
+			if !thorough && k > 16 && k < 20 && n != 1<<k {
+				continue
+			}
+			if n > 0 && (len(out) == 0 || n > out[len(out)-1]) {
+				out = append(out, n)
+			}
+		}
+	}
+	return out
+}
+
+// c14LargeBody builds the delivered bytes of a case; text is what the peer put into the end-stream message.
+func c14LargeBody(c *c14LargeCase) (body, text []byte) {
+	proto := c14Proto(c.Hdr)
+	text = c14LargeContent(proto, c.Shape, c.Size)
+	payload := text
+	if c.Flags&1 != 0 {
+		payload = c14Compress(strings.ToLower(c.Hdr.Enc), text) // identity / absent: sent as is
+	}
+	return c14LargeAssemble(c.Lead, c.Flags, payload), text
+}
+
+func c14LargeAssemble(lead bool, flags byte, payload []byte) []byte {
+	var body []byte
+	if lead {
+		body = append(body, c14Envelope(0, []byte{0x0a})...)
+	}
+	return append(body, c14Envelope(flags, payload)...)
+}
+
+func c14Clip(s string, n int) string {
+	if len(s) <= n {
+		return s
+	}
+	return fmt.Sprintf("%s... (%d bytes in all)", s[:n], len(s))
+}
+
+// c14LargeRunCase runs one case (and, if base is nil, nothing else); findings come back with clipped details.
+func c14LargeRunCase(c *c14LargeCase, body, text []byte, ref *c14Ref, base []c14Ev) (events []c14Ev, out []c14Finding) {
+	cc := c14Case{Part: c.Part, Side: c.Side, Hdr: c.Hdr, Pieces: c14LargePieces(len(body), c.Chunk), Ending: c14NormalEnding(c.Side)}
+	traced := c14Run(&cc, body, true)
+	plain := c14Run(&cc, body, false)
+	for _, f := range c14Judge(&cc, ref, &traced, &plain, base) {
+		detail := c14Clip(f.Detail, 400)
+		for _, e := range traced.Events {
+			if e.K == 'S' && e.Content != string(text) {
+				common := 0
+				for common < len(e.Content) && common < len(text) && e.Content[common] == text[common] {
+					common++
+				}
+				detail += fmt.Sprintf("\n  end-stream content in the trace: %d bytes; the peer sent %d bytes (%d on the wire); the first %d bytes agree", len(e.Content), len(text), len(body), common)
+			}
+		}
+		out = append(out, c14Finding{"large:" + f.Key, detail})
+	}
+	return traced.Events, out
+}
+
+func c14LargeEvSummary(evs []c14Ev) string {
+	parts := make([]string, len(evs))
+	for i, e := range evs {
+		if e.K == 'S' {
+			parts[i] = fmt.Sprintf("endstream{%d bytes}", len(e.Content))
+		} else {
+			parts[i] = e.String()
+		}
+	}
+	return "[" + strings.Join(parts, " ") + "]"
+}
+
+type c14LargeProto struct {
+	name, ct, encKey string
+	flag             byte
+}
+
+var c14LargeProtos = []c14LargeProto{
+	{"connect", "application/connect+proto", "Connect-Content-Encoding", 0x02},
+	{"grpcweb", "application/grpc-web+proto", "Grpc-Encoding", 0x80},
+}
+
+// c14LargeWireCap: in the quick tier, cases whose end-stream payload exceeds this many bytes on the wire
+// (large content sent uncompressed, or marked compressed under identity) are left to the thorough tier.
+const c14LargeWireCap = 1<<16 + 1
+
+func c14LargeStage(r *rep.Report, deadline time.Time) bool {
+	thorough := rep.Thorough()
+	start := time.Now()
+	cpu := c14CPUMillis()
+	defer func() { // informational only
+		r.Count("stage-wall-ms:L-large", time.Since(start).Milliseconds())
+		r.Count("stage-cpu-ms:L-large", c14CPUMillis()-cpu)
+	}()
+	defer debug.SetGCPercent(debug.SetGCPercent(100)) // footprint only, see stage H
+	shapes := c14LargeShapes
+	if thorough {
+		shapes = append(append([]string(nil), shapes...), "pattern255")
+	}
+	encs := append([]string{"", "identity"}, c14SupportedEncodings...)
+	var group, evals, planned int64
+	var rawText, rawPayload []byte // of the current group, shapes that do not depend on the protocol
+	for _, size := range c14LargeSizes(thorough) {
+		for _, shape := range shapes {
+			for _, enc := range encs {
+				group++
+				mine := r.Mine(group)
+				if mine && !deadline.IsZero() && time.Now().After(deadline) {
+					return false
+				}
+				for pi, p := range c14LargeProtos {
+					h := c14Hdr{CT: p.ct}
+					if enc != "" {
+						h.EncKey, h.Enc = p.encKey, enc
+					}
+					for _, bit := range []byte{1, 0} {
+						wire := size
+						if bit == 1 && c14KnownEncoding(enc) {
+							wire = 0 // compressed: small
+						}
+						if !thorough && wire > c14LargeWireCap {
+							continue
+						}
+						// quick: Connect on the client side, gRPC-Web on the server side; a leading message in every second group
+						sides := []string{c14RespSides[pi]}
+						leads := []bool{group%2 == 0}
+						if thorough {
+							sides, leads = c14RespSides, []bool{false, true}
+						}
+						// two chunkings of every body (the second compared with the first); quick: above 64 KiB one, in turn
+						both := thorough || size <= c14LargeWireCap
+						chunk1 := [2]string{"64", "ragged"}[group%2]
+						if both {
+							chunk1 = "64"
+							planned += int64(len(sides) * len(leads))
+						}
+						planned += int64(len(sides) * len(leads))
+						if !mine {
+							continue
+						}
+						// content and compressed payload: built once per group unless the shape depends on the protocol
+						var text, payload []byte
+						if shape == "wrapped" || bit == 0 || pi == 0 {
+							text = c14LargeContent(p.name, shape, size)
+							payload = text
+							if bit == 1 {
+								payload = c14Compress(enc, text) // identity / absent: sent as is with the bit set
+							}
+							if bit == 1 {
+								rawText, rawPayload = text, payload
+							}
+						} else {
+							text, payload = rawText, rawPayload
+						}
+						for _, lead := range leads {
+							body := c14LargeAssemble(lead, p.flag|bit, payload)
+							ref := c14Reference(c14ClientResp, h, body)
+							// the oracle is what the peer compressed: the reference decoder must give exactly that back
+							if m := ref.Msgs[len(ref.Msgs)-1]; m.Cat != 'm' || m.Want != string(text) {
+								panic(fmt.Sprintf("c14 harness: the reference model does not return the generated end-stream content (%s, %s, %d bytes, enc %q)", p.name, shape, size, enc))
+							}
+							for _, side := range sides {
+								c := c14LargeCase{Stage: "large", Part: "L-large", Side: side, Hdr: h, Flags: p.flag | bit, Shape: shape, Size: size, Lead: lead, Chunk: chunk1}
+								base, findings := c14LargeRunCase(&c, body, text, ref, nil)
+								var more []c14Finding
+								c2 := c
+								c2.Chunk = "ragged"
+								evals++
+								r.NonTrivial("")
+								if both {
+									_, more = c14LargeRunCase(&c2, body, text, ref, base)
+									evals++
+									r.NonTrivial("")
+								}
+								if evals%64 <= 1 {
+									r.Outcome(fmt.Sprintf("large %s/%s enc=%q bit=%d: %d events, end-stream content present=%v", side, p.name, enc, bit, len(base), c14EosCount(base) > 0))
+								}
+								if evals%512 <= 1 {
+									r.Sample(map[string]any{"case": c, "wire_bytes": len(body), "content_bytes": len(text), "events": c14LargeEvSummary(base)})
+								}
+								for _, f := range findings {
+									r.Violate(f.Key, f.Detail+"\n  events: "+c14LargeEvSummary(base)+"\n  case: "+c.String(), c)
+								}
+								for _, f := range more {
+									r.Violate(f.Key, f.Detail+"\n  case: "+c2.String(), c2)
+								}
+							}
+						}
+					}
+				}
+			}
+		}
+	}
+	r.Eval(evals)
+	r.Count("nontrivial:L-large", evals)
+	if r.Shard == 0 {
+		r.Count("planned-cases:L-large", planned)
+	}
+	r.Note("stage L: %d groups (size x shape x encoding) of large, highly compressible end-stream content, %d cases (this shard ran %d)", group, planned, evals)
+	return true
+}
+
+// c14LargeReplay re-runs a recorded case of stage L; false = the record belongs to another stage.
+func c14LargeReplay(t *testing.T, r *rep.Report, in []byte) bool {
+	var rec struct {
+		Replay c14LargeCase `json:"replay"`
+	}
+	if err := json.Unmarshal(in, &rec); err != nil || rec.Replay.Stage != "large" {
+		return false
+	}
+	c := rec.Replay
+	body, text := c14LargeBody(&c)
+	ref := c14Reference(c.Side, c.Hdr, body)
+	c1 := c
+	c1.Chunk = "64"
+	base, _ := c14LargeRunCase(&c1, body, text, ref, nil)
+	evs, findings := c14LargeRunCase(&c, body, text, ref, base)
+	fmt.Printf("C14 replay: case %s\n  content %d bytes, %d bytes on the wire\n  calls of 64 bytes: events %s\n  this chunking:     events %s\n",
+		c.String(), len(text), len(body), c14LargeEvSummary(base), c14LargeEvSummary(evs))
+	r.Eval(1)
+	r.NonTrivial("")
+	r.Sample(c)
+	for _, f := range findings {
+		fmt.Printf("C14 replay: still violates %s: %s\n", f.Key, f.Detail)
+		r.Violate(f.Key, f.Detail, c)
+	}
+	return true
+}
